@@ -16,7 +16,7 @@ import (
 	"verif/internal/tmpl"
 )
 
-func init() { Registry["C19"] = checkC19 }
+func init() { Registry["C19"] = withErrRules(checkC19, "", "gen", "plugin") }
 
 // resolveAt resolves a phi to the value flowing in from pred.
 func resolveAt(v ssa.Value, pred *ssa.BasicBlock) ssa.Value {
